@@ -31,7 +31,9 @@ RULE = ('ba: op sequences (set/del/merge_in, up to 30 ops) on a REAL BoundedAttr
         '(order(), inactive, raising, None-returning), resource read back through convert_resource; sched: 2-3 writer '
         'THREADS on one real container (new / existing / same / invalid keys, capacity 0,1,2,n,None, one free slot or full), '
         'a random one of all interleavings of their two regions (arrive at the lock | pass through it) forced by a gated '
-        'stand-in for BoundedAttributes._lock. Non-trivial = '
+        'stand-in for BoundedAttributes._lock. env: DeepResourceDetector().detect() in-process on COMPOSED texts of '
+        'DEEP_RESOURCE_ATTRIBUTES (0-21 random tokens: separators, valid/truncated/non-hex escapes, white space, key and '
+        'value fragments; a tenth with escapes >= 0x80 / non-ASCII, oracle only) x DEEP_SERVICE_NAME set/empty/unset. Non-trivial = '
         'something was evicted/rejected/refused (ba), a key was overridden or a schema conflicted (merge), the '
         'environment contributed or the fallback fired (create/start). Distinct = distinct canonical JSON.')
 TRUSTED = ['threading.Lock; a writer parked at the lock has executed everything that precedes `with self._lock`',
@@ -226,6 +228,31 @@ ENV_ITEMS = ['a=1', 'b = two ', ' c=3', 'd=x%20y', 'e=p%2Cq', 'f=l%3Dr', 'g=100%
 ENV_ITEMS_UNMODELLED = ['n=%C3%A9', 'o=%FF', 'p=café', 'q= nbsp ']
 
 
+ENV_TOKENS = ['a', 'b', 'k', 'key', '1', '2', 'x y', ',', ',', ',', '=', '=', '=', '%', '%41', '%2C', '%3D', '%25', '%20',
+              '%7e', '%zz', '%4', ' ', '\t', '.', 'service.name', 'process.executable.name', '', '%%', '==', ',,']
+ENV_TOKENS_UNMODELLED = ['é', '%C3%A9', '%FF', '\u00a0', '%80']
+
+
+def g_envtext(rng):
+    """the environment parser alone, on COMPOSED texts (not a menu of items): any mix of separators, escapes (valid,
+    truncated, non-hex), white space and key/value fragments; DEEP_SERVICE_NAME set / empty / unset"""
+    n = rng.choice([0, 1, 2, 3, 5, 8, 13, 21])
+    toks = [rng.choice(ENV_TOKENS) for _ in range(n)]
+    if rng.random() < 0.1:
+        toks.insert(rng.randint(0, len(toks)), rng.choice(ENV_TOKENS_UNMODELLED))
+    env = {}
+    if rng.random() < 0.93:
+        env['DEEP_RESOURCE_ATTRIBUTES'] = ''.join(toks)
+    if rng.random() < 0.4:
+        env['DEEP_SERVICE_NAME'] = rng.choice(['svc', '', 'my service', ' padded ', 'x=y,z', '%41'])
+    return {'kind': 'env', 'env': env}
+
+
+def env_unmodelled(env):
+    t = env.get('DEEP_RESOURCE_ATTRIBUTES') or ''
+    return any(ord(c) > 127 or 0x1c <= ord(c) <= 0x1f for c in t) or bool(re.search(r'%[89a-fA-F][0-9a-fA-F]', t))
+
+
 def g_env(rng):
     env = {}
     unmodelled = False
@@ -344,6 +371,8 @@ def gen(rng, tier):
             yield g_ctor(rng)
         elif k % 5 == 2:
             yield g_sched(rng)
+        elif k % 10 == 3:
+            yield g_envtext(rng)
         else:
             yield g_ba(rng)
 
@@ -693,9 +722,52 @@ def run_start(case):
         sys.modules.pop(_PLUGMOD, None)
 
 
+_ENV_KEYS = ('DEEP_RESOURCE_ATTRIBUTES', 'DEEP_SERVICE_NAME')
+
+
+def run_env(case):
+    """DeepResourceDetector().detect() in-process under the generated values of the two variables"""
+    import logging as pylog
+    saved = {k: os.environ.get(k) for k in _ENV_KEYS}
+    pylog.disable(pylog.CRITICAL)
+    try:
+        for k in _ENV_KEYS:
+            os.environ.pop(k, None)
+        os.environ.update(case['env'])
+        from deep.api.resource import DeepResourceDetector
+        r = DeepResourceDetector().detect()
+        return {'attrs': [[k, v if isinstance(v, str) else {'nonstr': repr(v)}] for k, v in r.attributes.items()],
+                'dropped': r.attributes.dropped, 'url': r.schema_url}
+    except Exception as e:      # noqa: B902
+        return {'raised': f'{type(e).__name__}: {e}'}
+    finally:
+        pylog.disable(pylog.NOTSET)
+        for k, v in saved.items():
+            os.environ.pop(k, None)
+            if v is not None:
+                os.environ[k] = v
+
+
+def oracle_env(case, obs):
+    """from the statement: the detector never fails on any text; it yields the `k=v` items (first "=", stripped,
+    value unquoted, later item wins), DEEP_SERVICE_NAME over a service.name item; only valid keys are kept"""
+    if 'raised' in obs:
+        return ['the environment detector raised: ' + obs['raised']]
+    exp = {k: v for k, v in ref_detect(case['env']).items() if k}
+    got = {k: v for k, v in obs['attrs']}
+    v = []
+    if got != exp:
+        v.append(f'detected attributes {got}, expected {exp} for {case["env"]}')
+    if len(got) != len(obs['attrs']):
+        v.append('a key is stored twice')
+    if obs['url'] != '':
+        v.append(f'detected resource has schema url {obs["url"]!r}')
+    return v
+
+
 def run_impl(case):
     core.use_repo()
-    return {'ba': run_ba, 'ctor': run_ctor, 'merge': run_merge, 'create': run_create, 'start': run_start,
+    return {'env': run_env, 'ba': run_ba, 'ctor': run_ctor, 'merge': run_merge, 'create': run_create, 'start': run_start,
             'sched': run_sched}[case['kind']](case)
 
 
@@ -1108,7 +1180,7 @@ def oracle_start(case, obs):
 
 
 def oracle(case, obs):
-    return {'ba': oracle_ba, 'ctor': oracle_ctor, 'merge': oracle_merge, 'create': oracle_create,
+    return {'env': oracle_env, 'ba': oracle_ba, 'ctor': oracle_ctor, 'merge': oracle_merge, 'create': oracle_create,
             'start': oracle_start, 'sched': oracle_sched}[case['kind']](case, obs)
 
 
@@ -1127,6 +1199,11 @@ def has_subclass_value(x):
 
 def model_request(case, obs):
     k = case['kind']
+    if k == 'env':
+        if 'raised' in obs or env_unmodelled(case['env']):
+            return None     # escapes >= 0x80 / non-ASCII white space: outside the modelled unquote/strip, oracle only
+        return {'kind': 'create', 'ra': case['env'].get('DEEP_RESOURCE_ATTRIBUTES'),
+                'sn': case['env'].get('DEEP_SERVICE_NAME'), 'given': None, 'url': None, 'plugins': []}
     if has_subclass_value(case):
         return None         # instances of subclasses of int/str: outside the model (ASSUMPTIONS), judged by the oracle
     if k == 'ba':
@@ -1177,6 +1254,11 @@ def compare(case, obs, resp):
         return ['model error: ' + resp['error']]
     k = case['kind']
     d = []
+    if k == 'env':
+        m = [[kv[0].get('s'), kv[1].get('v')] for kv in resp['detected']]
+        if m != obs['attrs']:       # order included: the translated loop stores in item order
+            d.append(f'detected: model {m} vs implementation {obs["attrs"]}')
+        return d
     if k == 'sched':
         for f in ('dropped', 'errors'):
             if resp[f] != obs[f]:
@@ -1214,6 +1296,10 @@ def compare(case, obs, resp):
 # --------------------------------------------------------------------------------------- reporting
 def label(case, obs):
     k = case['kind']
+    if k == 'env':
+        t = case['env'].get('DEEP_RESOURCE_ATTRIBUTES')
+        return 'env/' + ('unset' if t is None else 'empty' if t == '' else 'unmodelled' if env_unmodelled(case['env'])
+                         else 'text') + ('+name' if case['env'].get('DEEP_SERVICE_NAME') else '')
     if k == 'ba':
         cap = case['cap']
         c = 'capNone' if cap is None else ('cap0' if cap == 0 else 'capN')
@@ -1243,6 +1329,10 @@ def label(case, obs):
 
 def nontrivial(case, obs):
     k = case['kind']
+    if k == 'env':
+        # something kept and something skipped / overwritten / unquoted
+        t = case['env'].get('DEEP_RESOURCE_ATTRIBUTES') or ''
+        return bool(obs.get('attrs')) and (len(obs['attrs']) < len(t.split(',')) or '%' in t)
     if k == 'ba':
         return obs.get('dropped', 0) > 0 or any(obs.get('errors', [])) or \
             len(obs.get('dict', [])) < len([o for o in case['ops'] if o['op'] == 'set'])
@@ -1256,6 +1346,14 @@ def nontrivial(case, obs):
 
 
 def shrink(case):
+    if case['kind'] == 'env':
+        t = case['env'].get('DEEP_RESOURCE_ATTRIBUTES')
+        if t:
+            for i in range(len(t)):
+                yield dict(case, env=dict(case['env'], DEEP_RESOURCE_ATTRIBUTES=t[:i] + t[i + 1:]))
+        if 'DEEP_SERVICE_NAME' in case['env']:
+            yield dict(case, env={k: v for k, v in case['env'].items() if k != 'DEEP_SERVICE_NAME'})
+        return
     if case['kind'] == 'ba':
         ops = case['ops']
         for i in range(len(ops)):
